@@ -237,6 +237,29 @@ func Run(peer *Peer, torEvent chan<- TorEvent, torDone <-chan struct{},
 		}
 	}()
 
+	// this must be set up before the first early return, since the
+	// torrent waits on Done and expects TorPeerGoaway
+	defer func() {
+		close(peer.Done)
+
+		peer.requests.Clear(true, func(index uint32) {
+			drop(peer, index)
+		})
+		writeEvent(peer, TorPeerBitmap{peer, peer.bitmap.Copy(), false})
+		writeEvent(peer, TorPeerGoaway{peer})
+		for len(peer.events) > 0 {
+			select {
+			case peer.torEvent <- peer.events[0]:
+				peer.events = peer.events[1:]
+				if len(peer.events) == 0 {
+					peer.events = nil
+				}
+			case <-peer.torDone:
+				return
+			}
+		}
+	}()
+
 	peer.reqQ = 128
 	peer.time = time.Now()
 	peer.writeTime = time.Now()
@@ -334,27 +357,6 @@ func Run(peer *Peer, torEvent chan<- TorEvent, torDone <-chan struct{},
 	ticker := time.NewTicker(2 * time.Second)
 	defer ticker.Stop()
 	defer peer.stopUpload()
-
-	defer func() {
-		close(peer.Done)
-
-		peer.requests.Clear(true, func(index uint32) {
-			drop(peer, index)
-		})
-		writeEvent(peer, TorPeerBitmap{peer, peer.bitmap.Copy(), false})
-		writeEvent(peer, TorPeerGoaway{peer})
-		for len(peer.events) > 0 {
-			select {
-			case peer.torEvent <- peer.events[0]:
-				peer.events = peer.events[1:]
-				if len(peer.events) == 0 {
-					peer.events = nil
-				}
-			case <-peer.torDone:
-				return
-			}
-		}
-	}()
 
 	for {
 
